@@ -331,8 +331,11 @@ def obs_serial(c: Ctx, enc, *, props, quick=True, salt=0, tmpdir=None):
             if not derived and mapper_needed:
                 kw["mapper"] = ser_mapper if salt % 2 else (lambda node, data: ser_mapper(node, dict(data)))
             load_kw = {}
-            need_load_mapper = mapper_needed or fl.calc_data_id() is not None or \
+            # string data under explicit (or callback-made) ids is stored as {"str":, "data_id":} entries, which the
+            # default deserialize mapper reads: a callback is passed only every other time
+            dict_entries = fl.calc_data_id() is not None or \
                 any(st["did"][i] != fl.model_default_did(st["dat"][i]) for i in range(st["n"]))
+            need_load_mapper = mapper_needed or (dict_entries and salt % 2 == 0)
             if not derived and need_load_mapper:
                 load_kw["mapper"] = deser_mapper
             cls = tree_class(fl, derived)
@@ -404,7 +407,8 @@ def obs_serial(c: Ctx, enc, *, props, quick=True, salt=0, tmpdir=None):
     # ------------------------------------------------------------------ C12 reading side
     if "C12" in props:
         cls = tree_class(fl, False)
-        load_kw = {"mapper": deser_mapper}
+        # documents holding only strings (bare, or as {"str":[, "data_id":][, "kind":]} entries) need no callback
+        load_kw = {} if fl.is_str and salt % 2 else {"mapper": deser_mapper}
         variants = {
             "plain": {},
             # no key map in the header although the entries use the short names of the default map as USER keys
